@@ -28,7 +28,7 @@ COMPONENTS = {
 }
 ASSUMPTIONS = ["events with created_at equal to since/until may be returned or not",
                "only filters with at least one condition besides limit are generated in most runs; the "
-               "bare {} / {limit:n} filter is a listed known finding (deliberate no-range-scan policy)"]
+               "bare {} / {limit:n} / {since:0} filter is a listed known finding (deliberate no-range-scan policy)"]
 SHRINK = [["ops"], ["ops", "*", 1]]
 
 
@@ -58,7 +58,7 @@ def gen(rng, knobs):
                     fs.append(histgen.wellformed_filter(rng, evs))
             h.ops.append([rng.choice(["sub", "sub", "query"]), fs])
         else:
-            h.ops.append(["sub", [rng.choice([{}, {"limit": 100}])]])
+            h.ops.append(["sub", [rng.choice([{}, {"limit": 100}, {"since": 0}])]])
     return {"backend": backend, "ops": h.ops}
 
 
@@ -111,7 +111,7 @@ def check(obs, backend, max_limit):
                 continue
             missing = sorted(i for i in Ss if got[i] == 0)
             if missing:
-                cond = [k for k in f if k != "limit"]
+                cond = [k for k in f if k != "limit" and not (k == "since" and f[k] == 0)]
                 # events that match only through their NIP-26 delegator are reported separately
                 direct = [i for i in missing if model.matches(store_now[i], f, "strict", delegation=False)]
                 cls = "missing" if direct else "missing-delegated"
